@@ -92,6 +92,9 @@ def run(tier, seed):
         (gk, glo, ghi), gfile = guards[key]
         m = re.match(r"lo=(\d+) hi=(\w+) fixed=(\w+)", b)
         lo = int(m.group(1)); hi = None if m.group(2) == "inf" else int(m.group(2)); fixed = None if m.group(3) == "no" else int(m.group(3))
+        # messages with built-in types: the model knows their minimum (and, for masks / NamedGuid / VariableItemRandomProperty, their
+        # maximum) from the hand-written codecs; where the maximum is not modelled only the lower side of the guard is checked
+        hi_unknown = any(t in c["tokens"] or any(x.startswith(t) for x in c["tokens"]) for t in ("UpdateMask", "InspectTalentGearMask", "AddonArray", "AchievementDoneArray", "AchievementInProgressArray"))
         cap = direction_cap(c["lib"], c["kind"])
         hi_c = cap if hi is None else min(hi, cap)
         n_obl += 1
@@ -104,7 +107,7 @@ def run(tier, seed):
                 bad = f"the reader demands exactly {glo} bytes, the definition allows {lo}..{hi}"
             elif glo > lo:
                 bad = f"the reader rejects bodies below {glo}, the definition allows {lo}"
-            elif ghi < hi_c:
+            elif ghi < hi_c and not hi_unknown:
                 bad = f"the reader rejects bodies above {ghi}, the definition allows {hi_c} (interval {lo}..{hi}, frame limit {cap})"
         if bad:
             # reported after the search below, with a concrete valid message the reader rejects when one is found
@@ -146,6 +149,22 @@ def run(tier, seed):
             rep.violation(f"C09/{c['key']}/valid-message-rejected", f"{c['key']}: a canonical encoding of {n} bytes is outside the reader's guard {glo}..{ghi}",
                           {"container": c["key"], "input_body_hex": g.split()[1][:2000], "length": n, "guard": [glo, ghi]})
     by_key = {c["key"]: c for c, *_ in checked}
+    # messages with built-in types are outside the Lean encoder: the targeted search uses the python reference encoder
+    # (tools/pyenc.py; maximal mode = all flag bits, full masks, longest strings) and the real reader decides
+    import pyenc
+    for key in bad_conts:
+        c = by_key[key]
+        if "prim" not in c["tokens"] or key in witness:
+            continue
+        glo, ghi = bad_conts[key][1]["guard"][1:]
+        for s_ in range(40):
+            try:
+                body = pyenc.encode(c["tokens"], rng, (1, 2, 4, 8)[s_ % 4], s_ if s_ >= 20 else None, maximal=s_ < 20)
+            except (pyenc.Unsupported, OverflowError, ValueError):
+                continue
+            if (len(body) < glo or len(body) > ghi) and len(body) <= direction_cap(c["lib"], c["kind"]):
+                witness[key] = (len(body), body.hex() or "-")
+                break
     if bad_conts:
         rc_, out_, har = harness_build("world")
     for key, (bad, info) in bad_conts.items():
